@@ -453,7 +453,7 @@ impl Debugger {
             }
 
             Command::Eval { instruction } => {
-                eval::eval(state, instruction);
+                eval::eval(state, instruction, self.orig());
                 self.should_echo_pc = true;
             }
 
